@@ -228,3 +228,20 @@ pub fn mlstr_starts_logical_line(input: &str) -> bool {
     let Ok(p) = exec::lex_parse(input, exec::SOFT_STEP_LIMIT) else { return false };
     p.lines.iter().any(|l| l.get_tokens().first().and_then(|&t| p.tokens.get(t)).is_some_and(|t| t.get_token_type() == TokenType::TextLiteral(TextLiteralKind::MultiLine)))
 }
+
+/// signature of a known finding: a token that the lexer ends at a line break (line comment,
+/// unterminated literal) is followed by a gap whose only line-break characters are lone CRs.
+/// The lexer honours the CR, the whitespace model (FormattingData) only counts LF.
+pub fn lone_cr_after_line_bound_token(input: &str) -> bool {
+    let toks = refscan::scan(input);
+    for (i, t) in toks.iter().enumerate() {
+        if matches!(t.kind, RK::LineComment | RK::UntermStr) {
+            let end = toks.get(i + 1).map(|n| n.start).unwrap_or(input.len());
+            let gap = &input[t.end..end];
+            if gap.contains('\r') && !gap.contains('\n') {
+                return true;
+            }
+        }
+    }
+    false
+}
